@@ -197,6 +197,7 @@ func C07Cases(tier string, seed int64) []Case {
 			cases = append(cases, Case{ID: "C07/lindell22/" + p.Name + "/quorum=" + setName(Q), Desc: map[string]any{"protocol": "lindell22", "policy": p.Name, "quorum": Q}, Sym: func(e *SymEnv) { c07Lindell22(e, p, Q) }, MustReach: []string{"signed"}})
 		}
 	}
+	cases = append(cases, c07FailingSourceCases(tier)...)
 	cases = append(cases, Case{ID: "C07/redistribute/refresh", Desc: map[string]any{"protocol": "redistribute (refresh)"}, Sym: c07Redistribute, MustReach: []string{"refreshed"}})
 	return cases
 }
